@@ -1,7 +1,7 @@
 (* C09 - Same-time loop guard.  "Sub-step index" = value of a sub-tier of the step's tiered time. *)
 From Coq Require Import ZArith List Bool Arith.
 Import ListNotations.
-From MV Require Import Time.Spec Sched.Timing Sched.Inv Sched.Init Sched.Wle Sched.Main Sched.Guards Sched.Final.
+From MV Require Import Time.Spec Sched.Timing Sched.Inv Sched.Init Sched.Wle Sched.Main Sched.Guards Sched.Final Sched.GenView Gen.SchedulerFns Sched.SchedTie.
 Open Scope Z_scope.
 
 (* no step with a sub-step index >= max_loop_iterations is ever begun (the simulator is not called) *)
@@ -33,3 +33,21 @@ Theorem C09_loop_never_stalls : forall st, static_ok st -> uniform_certified st 
   exists e s', scheduler_move st e /\ apply st s e = Ok s'.
 Proof. exact certified_uniform_progress. Qed.
 Print Assumptions C09_loop_never_stalls.
+
+(* tie to the source: the loop guard of sim_process - `any(t >= world.max_loop_iterations for t in sim.current_step.tiers[1:])`,
+   translated from mosaik/scheduler.py on every run - is the model's loop_exceeded, and the two tests made when a step is popped
+   (already progressed past it / a sub-step index at the bound) decide a BEGIN exactly as the model's apply does.  The order of
+   the blocks of sim_process's loop is compared literally with the order of the model's events on every run. *)
+Theorem C09_generated_loop_guard_is_the_model : forall st t, loop_guard (maxloop st) t = loop_exceeded st t.
+Proof. exact tie_loop_guard. Qed.
+Print Assumptions C09_generated_loop_guard_is_the_model.
+
+Theorem C09_generated_begin_checks_are_the_model : forall st s i t m, begin_enabled st s i = true -> tmin (nexts (s i)) = Some t ->
+  apply st s (EvBegin i t m) =
+  (let x := s i in
+   if past_check t (prog x) then Err (EPast i) else
+   if loop_guard (maxloop st) t then Err (ELoopExpected i) else
+   let s' := upd s i (mkSim InStep (prog x) (removeT t (nexts x)) (Some t) (last x) (newer x)) in
+   if max_advance st s' i =? m then Ok s' else Err (EMaxAdv i)).
+Proof. exact tie_begin_checks. Qed.
+Print Assumptions C09_generated_begin_checks_are_the_model.
